@@ -22,7 +22,8 @@ separated by `|`; protocol documented in harness/bind-native/README.md.  The ima
   sig|<variant>|<fn>                   model of `Resolve::wasm_signature` + spec-side 16/1 decisions at p
   postfrees|<p>|<fn>|<retarea>|<dump>  model of the code: blocks the generated cabi_post_* frees
         → ok freed=<addr:size:align,…> spec=<…> skipflist=<…> | panic | stuck
-  rustobserve|<T>|<VAL>                model of the code: the value Rust code observes when the host sends VAL
+  rustobserve|<zext|sext>|<T>|<VAL>    model of the code: the value Rust code observes when the host sends VAL
+                                       (mode = FlagsLift rendering read off the generated text)
   ledger|<p>|<fn>|<VALS>|<VAL or _>    model of the code (RustLedger): event counts of one export call of the stub
         → ok hasmap=<0|1> galloc=<n> hostfree=<n> gfree=<n> postfree=<n> leak=<n>
   canon|<T>                            → rust=<0|1> bits=<0|1>
@@ -135,9 +136,10 @@ def handle (line : String) : String :=
                     ++ " skipflist=" ++ triplesStr (RustProfile.resultBlocksSkippingFlists p r ra m)
               | none => "stuck"
       | _, _, _, _ => "bad-request"
-  | ["rustobserve", t, v] =>
+  | ["rustobserve", mode, t, v] =>
       match parseTy t, parseVal v with
-      | some t, some v => if !Spec.hasTy t v then "bad-value" else "ok " ++ showVal (RustProfile.rustObserve t v)
+      | some t, some v =>
+          if !Spec.hasTy t v then "bad-value" else "ok " ++ showVal (RustProfile.rustObserve (mode == "sext") t v)
       | _, _ => "bad-request"
   | ["ledger", p, f, vs, r] =>
       match p.toNat?, parseFunc f, parseVal vs with
